@@ -12,6 +12,9 @@ What the Coq model of concurrent requests (C04/Model.v: task_step, parameter `ga
     be reached by every assignment of a non-empty text, whoever makes it: a PATCH, load_from_data at start-up or when a
     port comes back); together with "exactly one `self._expression = <name>` in the function" this says that no expression is
     stored unchecked.
+  * enable_reparse_awaits -- in BasePort.enable, the number of suspension points from the statement that reads
+    `str(self._expression)` up to and including the one that stores the re-parsed copy (`self._expression = <call>`): enable()
+    re-installs the port's own expression text, which is harmless only if nothing can be served in between.
 All are 0 in the code the theorems are about; C04/GenOk.v proves `= 0` against the regenerated file on every run.
 Fail closed: any shape not listed here raises -> "untranslatable".
 """
@@ -135,6 +138,25 @@ def _foreign_awaits(tree):
     return n
 
 
+def _enable_awaits(ports):
+    fn = _method(ports, 'BasePort', 'enable')
+
+    def reads(st):
+        return _contains(st, lambda x: isinstance(x, ast.Call) and isinstance(x.func, ast.Name) and x.func.id == 'str'
+                         and len(x.args) == 1 and isinstance(x.args[0], ast.Attribute) and x.args[0].attr == '_expression')
+
+    def stores(st):
+        return _contains(st, lambda x: isinstance(x, ast.Assign) and len(x.targets) == 1
+                         and isinstance(x.targets[0], ast.Attribute) and x.targets[0].attr == '_expression'
+                         and not isinstance(x.value, ast.Constant))
+    r = [i for i, st in enumerate(fn.body) if reads(st)]
+    w = [i for i, st in enumerate(fn.body) if stores(st)]
+    if len(r) != 1 or len(w) != 1 or w[0] < r[0]:
+        raise Untranslatable('enable(): expected one statement reading str(self._expression) followed by one storing the '
+                             're-parsed expression, found reads at %s, stores at %s' % (r, w))
+    return _suspensions(fn.body[r[0]:w[0] + 1])
+
+
 def read():
     with open(PORTS) as f:
         ports = ast.parse(f.read())
@@ -146,18 +168,22 @@ def read():
         raise Untranslatable('expected exactly one `self._expression = <name>` in attr_set_expression, found %d' % len(stores))
     between = _between(fn)
     conditions = sum(1 for block, i in _path_to_check(fn.body) if isinstance(block[i], ast.If))
-    return _suspensions(between), _foreign_awaits(exprs), conditions, [type(st).__name__ for st in between]
+    return (_suspensions(between), _foreign_awaits(exprs), conditions, _enable_awaits(ports),
+            [type(st).__name__ for st in between])
 
 
 def translate(ctx=None):
-    gap, foreign, conditions, shapes = read()
+    gap, foreign, conditions, enable_awaits, shapes = read()
     text = (
         '(* generated by harness/translate/exprstore.py from %s and %s -- do not edit *)\n'
         '(* statements that can run between `await check_loops(...)` and `self._expression = expression`: %s *)\n'
         'Definition awaits_between_check_and_store : nat := %d.\n'
         'Definition check_loops_foreign_awaits : nat := %d.\n'
-        'Definition check_loops_conditions : nat := %d.\n' % (PORTS, EXPRS, ', '.join(shapes) or 'none', gap, foreign, conditions)
+        'Definition check_loops_conditions : nat := %d.\n'
+        'Definition enable_reparse_awaits : nat := %d.\n'
+        % (PORTS, EXPRS, ', '.join(shapes) or 'none', gap, foreign, conditions, enable_awaits)
     )
     coq.write_gen('C04Gen.v', text)
     return {'status': 'ok', 'detail': 'awaits between check and store: %d; foreign awaits in check_loops: %d; conditions '
-            'around the check_loops call: %d; statements: %s' % (gap, foreign, conditions, shapes)}
+            'around the check_loops call: %d; awaits inside enable()\'s re-parse: %d; statements: %s'
+            % (gap, foreign, conditions, enable_awaits, shapes)}
